@@ -33,7 +33,7 @@ theorem depsLoop_nonrec_prods (db : Db) (req : Required)
 theorem depsOf_nonrec_prods (db : Db) (hns : NoUnsetup db) (req : Required) (k : Nat) (p : Prod) (depth : Nat)
     (st : St) (out : List Entry) (st' : St) (h : depsOf db (k + 1) req p false depth st = some (out, st')) :
     out.map (·.prod) = (db.table p).map (target db req) := by
-  unfold depsOf at h
+  unfold depsOf depsOfG at h
   have := depsLoop_nonrec_prods db req _ _ p depth (tableMissing_false hns) _ _ _ _ _ (table_noUnsetup hns p) h
   simpa using this
 
